@@ -308,3 +308,51 @@ func ZZ_C06_M4() {
 	}
 	zzverif.Reach("M4 end")
 }
+
+// ZZ_C06_M5: an account that exists only in the block in progress.  Block 2
+// pays a symbolic amount to a key holder without an account (A3 is not a
+// genesis holder); before the block is committed replica B serves a CheckTx
+// that involves the new account - sent by it, or paying it - and both replicas
+// then finish the block and run one more.  The committed account records and
+// the application hashes must not depend on the mempool traffic (round 9,
+// seed C06-i).
+func ZZ_C06_M5() {
+	govp := ctrlertypes.Test1GovParams()
+	g := zzNewGenesisBanded(3, 2, govp)
+	a, b := g.start(), g.start()
+	for _, n := range []*zzNode{a, b} {
+		n.emptyBlock(0)
+	}
+	gas, price := govp.MinTrxGas(), govp.GasPrice()
+	amt := zzverif.NondetU256Below("fund.amount", zzMaxBalance())
+	camt := zzverif.NondetU256Below("check.amount", zzMaxBalance())
+	var chk *zzTx
+	if zzverif.Choose("check.kind", 2) == 0 {
+		chk = &zzTx{from: 3, to: 2, typ: ctrlertypes.TRX_TRANSFER, amount: camt, gas: gas, gasPrice: price, nonce: 0, signer: 3}
+	} else {
+		chk = &zzTx{from: 2, to: 3, typ: ctrlertypes.TRX_TRANSFER, amount: camt, gas: gas, gasPrice: price, nonce: 0, signer: 2}
+	}
+	var codes [2]uint32
+	var hashes [2][]byte
+	for k, n := range []*zzNode{a, b} {
+		n.begin(0, nil, nil)
+		r := n.deliver(&zzTx{from: 1, to: 3, typ: ctrlertypes.TRX_TRANSFER, amount: amt, gas: gas, gasPrice: price, nonce: n.nonce(1), signer: 1})
+		codes[k] = r.Code
+		if k == 1 {
+			n.app.CheckTx(abcitypes.RequestCheckTx{Tx: n.encode(chk), Type: abcitypes.CheckTxType_New})
+		}
+		_, hashes[k] = n.end()
+	}
+	zzverif.Assert(codes[0] == codes[1], "M5 same result of the funding transfer")
+	zzverif.Assert(zzverif.SameBytes(hashes[0], hashes[1]), "M5 block 2: application hash does not depend on a CheckTx served while the block runs")
+	if codes[0] == 0 {
+		zzverif.Reach("M5 account created in the block")
+	}
+	for i := 0; i < 4; i++ {
+		ra, rb := a.app.acctCtrler.ReadAccount(zzAddr(i)), b.app.acctCtrler.ReadAccount(zzAddr(i))
+		zzverif.Assert(ra.GetNonce() == rb.GetNonce() && ra.GetBalance().Eq(rb.GetBalance()), "M5 committed account records do not depend on mempool traffic")
+	}
+	ha, hb := a.emptyBlock(0), b.emptyBlock(0)
+	zzverif.Assert(zzverif.SameBytes(ha, hb), "M5 block 3: same application hash")
+	zzverif.Reach("M5 end")
+}
